@@ -556,23 +556,17 @@ theorem simAt_succ {n : Nat} (IH : ∀ k, k ≤ n → SimAt k) : SimAt (n + 1) :
       intro fr h2 es st hf h
       simp only [evalList] at h ⊢
       repeat' split at h
-      all_goals try (simp_all [ih.evalList, ih.evalF]; done)
-      all_goals trace_state
-      all_goals sorry
+      all_goals (simp_all [ih.evalList, ih.evalF]; done)
     case mkClos =>
       intro fr h2 f st hf h
       simp only [mkClos] at h ⊢
       repeat' split at h
       all_goals try (simp_all [ih.evalDflts]; done)
-      all_goals trace_state
-      all_goals sorry
     case evalDflts =>
       intro fr h2 ps st hf h
       simp only [evalDflts] at h ⊢
       repeat' split at h
       all_goals try (simp_all [ih.evalDflts, ih.evalF]; done)
-      all_goals trace_state
-      all_goals sorry
     case callUser =>
       intro hh h2 c args st h
       simp only [callUser] at h ⊢
@@ -820,7 +814,7 @@ theorem simB_succ {m : Nat} (ih : SimB m) : SimB (m + 1) := by
       rw [fuel_shape]
       simp only [evalList] at hT ⊢
       repeat' split at hT
-      all_goals try (simp_all [ih.evalList, ih.evalF]; done)
+      all_goals (simp_all [ih.evalList, ih.evalF]; done)
     case mkClos =>
       intro fr h f st j hf hT
       rw [fuel_shape]
